@@ -146,3 +146,33 @@ pub fn run_plain_scripts(scripts: &[String], timeout_ms: u64) -> Vec<ScriptObs> 
     let cases: Vec<Value> = scripts.iter().map(|s| json!({"s": s})).collect();
     run_scripts(&cases, timeout_ms)
 }
+
+/// Parses a stream of `vargs` records (`<n>\0arg1\0…argn\0\n`) by count, so arguments may contain
+/// newlines and the record terminator sequence. Returns None for a malformed stream position.
+pub fn parse_vargs_stream(out: &str) -> Vec<Vec<String>> {
+    let b = out.as_bytes();
+    let mut i = 0;
+    let mut recs = vec![];
+    while i < b.len() {
+        // count
+        let Some(z) = b[i..].iter().position(|c| *c == 0) else { break };
+        let Ok(n) = std::str::from_utf8(&b[i..i + z]).unwrap_or("x").parse::<usize>() else { break };
+        i += z + 1;
+        let mut args = Vec::with_capacity(n);
+        let mut ok = true;
+        for _ in 0..n {
+            let Some(z) = b[i..].iter().position(|c| *c == 0) else {
+                ok = false;
+                break;
+            };
+            args.push(String::from_utf8_lossy(&b[i..i + z]).into_owned());
+            i += z + 1;
+        }
+        if !ok || i >= b.len() || b[i] != b'\n' {
+            break;
+        }
+        i += 1;
+        recs.push(args);
+    }
+    recs
+}
